@@ -42,6 +42,10 @@ func (pConn *PFCPConn) handleSessionEstablishmentRequest(msg message.Message) (m
 		return pfdres, errUnmarshal(err)
 	}
 
+	if sereq.NodeID == nil || sereq.CPFSEID == nil {
+		return errUnmarshalReply(ErrNotFound("mandatory IE (Node ID / CP F-SEID)"), nil)
+	}
+
 	nodeID, err := sereq.NodeID.NodeID()
 	if err != nil {
 		return errUnmarshalReply(err, sereq.NodeID)
@@ -551,6 +555,10 @@ func (pConn *PFCPConn) handleSessionReportResponse(msg message.Message) error {
 	srres, ok := msg.(*message.SessionReportResponse)
 	if !ok {
 		return errUnmarshal(errMsgUnexpectedType)
+	}
+
+	if srres.Cause == nil || len(srres.Cause.Payload) == 0 {
+		return errUnmarshal(ErrNotFound("mandatory IE (Cause)"))
 	}
 
 	cause := srres.Cause.Payload[0]
